@@ -451,6 +451,11 @@ func eScenario(r *rand.Rand) ([]database.Command, string, eOpts) {
 		o.Limit = n + 3
 		o.NLP = r.Intn(3) != 0
 		o.AllPlatforms = true
+		if r.Intn(2) == 0 { // the second common word moves behind the protected first four and is boosted by the context
+			k := len(words) - 1 - r.Intn(4)
+			words[1], words[k] = words[k], words[1]
+			o.Boosts = []eBoost{{Word: ints(common[1]), F: []string{"2", "3", "1.5"}[r.Intn(3)]}}
+		}
 		return cmds, strings.Join(words, " "), o
 	case 0:
 		// typo fallback under a restrictive filter: many ineligible entries match the typo better (shorter text)
